@@ -16,7 +16,8 @@ EXTENDS Naturals, Sequences, FiniteSets, TLC, Json, SequencesExt
 
 CONSTANTS MaxSegs, MaxProg, OutFile, ProgFile
 
-Segs0 == {"a", "bj", "esc", "spc", "uni"}
+\* ("dot" and "dd" are the segments "." and "..": a reference keeps them as written)
+Segs0 == {"a", "bj", "esc", "spc", "uni", "dot", "dd"}
 RECURSIVE SegSeqs(_)
 SegSeqs(n) == IF n = 0 THEN {<<>>}
               ELSE SegSeqs(n - 1) \cup {Append(s, x) : s \in {t \in SegSeqs(n - 1) : Len(t) = n - 1}, x \in Segs0 \cup {"dup"}}
@@ -24,7 +25,8 @@ SegSeqs(n) == IF n = 0 THEN {<<>>}
 Paths == {s \in SegSeqs(MaxSegs + 1) : /\ Len(SelectSeq(s, LAMBDA x : x # "dup")) <= MaxSegs
                                        /\ (s # <<>> => s[1] # "dup" /\ s[Len(s)] # "dup")
                                        /\ \A i \in 1..(Len(s) - 1) : ~(s[i] = "dup" /\ s[i + 1] = "dup")}
-Frags == {"none", "empty", "ptr", "esc", "pct"}
+\* ("anchor": a fragment that is no JSON pointer, "#anchor")
+Frags == {"none", "empty", "ptr", "esc", "pct", "anchor"}
 
 R(scheme, up, host, port, abs, segs, frag) ==
   [scheme |-> scheme, up |-> up, host |-> host, port |-> port, abs |-> abs, segs |-> segs, frag |-> frag]
